@@ -24,7 +24,7 @@
          chk_C04 ifs h wakes (map obs_of (run_history ifs h)) = true ). *)
 From Coq Require Import List NArith Bool.
 From Mdns Require Import Res Bytes Rec Wire Txt Cache Browser C03Spec BrowserSpec CacheProofs BrowserStepProofs
-  BrowserExamples.
+  SpecTrackProofs BrowserExamples.
 Import ListNotations.
 Open Scope N_scope.
 
@@ -132,6 +132,15 @@ Theorem C04_followup_over_allows_new_round : forall s now inst n,
   mem inst (s_pending (fst (exec_resolve s now inst n))) = false.
 Proof. exact followup_over_allows_new_round. Qed.
 
+(* History level: the "spec cache" that chk_C04 replays from the history (cache component only)
+   IS the model's cache after every history - same buckets, same records (name, type, class,
+   cache-flush bit, TTL, rdata, created, expires, interface), same browsed types; only refresh
+   marks may differ.  So what the checker calls live (alive_strong / alive_weak / death_time)
+   is a statement about the model's state, for ALL histories (no well-formedness needed). *)
+Theorem C04_spec_cache_is_model_cache : forall ifs h,
+  tracks (model_after ifs init_st h) (spec_after ifs init_spec h).
+Proof. exact spec_tracks_model. Qed.
+
 (* The history-level statement is false of the faithful model: a PTR to an instance whose first
    label is "a.b"; the follow-up questions ask for the labels a, b, _http, ... which no PTR
    points to (finding C04-D20-dotted-label-followup). *)
@@ -183,6 +192,7 @@ Print Assumptions C04_followup_after_srv.
 Print Assumptions C04_followup_ends.
 Print Assumptions C04_followup_not_doubled.
 Print Assumptions C04_followup_over_allows_new_round.
+Print Assumptions C04_spec_cache_is_model_cache.
 Print Assumptions C04_found_and_resolved_refuted.
 Print Assumptions C04_example_followup.
 Print Assumptions C04_example_lifecycle.
